@@ -150,6 +150,16 @@ pub fn library() -> Vec<Mol> {
         named("argon-atom", &[("Ar", 0.3, -0.2, 0.1)]),
         named("nacl", &[("Na", 0.0, 0.0, 0.0), ("Cl", 2.36, 0.0, 0.0)]),
     ];
+    // centres with three heavy neighbours that can all form multiple bonds (three candidate double bonds on one atom)
+    v.push(named("acetone", &[("C", 0.0, 0.0, 0.0), ("O", 0.0, 1.22, 0.0), ("C", 1.29, -0.77, 0.0), ("C", -1.29, -0.77, 0.0),
+        ("H", 1.2, -1.86, 0.0), ("H", 1.85, -0.45, 0.89), ("H", 1.85, -0.45, -0.89), ("H", -1.2, -1.86, 0.0), ("H", -1.85, -0.45, 0.89), ("H", -1.85, -0.45, -0.89)]));
+    v.push(named("urea", &[("C", 0.0, 0.0, 0.0), ("O", 0.0, 1.23, 0.0), ("N", 1.16, -0.72, 0.0), ("N", -1.16, -0.72, 0.0),
+        ("H", 1.2, -1.73, 0.0), ("H", 2.0, -0.18, 0.0), ("H", -1.2, -1.73, 0.0), ("H", -2.0, -0.18, 0.0)]));
+    v.push(named("nitrate", &[("N", 0.0, 0.0, 0.0), ("O", 0.0, 1.25, 0.0), ("O", 1.083, -0.625, 0.0), ("O", -1.083, -0.625, 0.0)]));
+    v.push(named("carbonate", &[("C", 0.0, 0.0, 0.0), ("O", 0.0, 1.29, 0.0), ("O", 1.117, -0.645, 0.0), ("O", -1.117, -0.645, 0.0)]));
+    v.push(named("isobutene", &[("C", 0.0, 0.0, 0.0), ("C", 0.0, 1.34, 0.0), ("C", 1.3, -0.76, 0.0), ("C", -1.3, -0.76, 0.0),
+        ("H", 0.93, 1.9, 0.0), ("H", -0.93, 1.9, 0.0), ("H", 1.2, -1.85, 0.0), ("H", 1.88, -0.45, 0.88), ("H", 1.88, -0.45, -0.88),
+        ("H", -1.2, -1.85, 0.0), ("H", -1.88, -0.45, 0.88), ("H", -1.88, -0.45, -0.88)]));
     v.push({ let mut m = ring(6, 6, 1.40, 1, 1.09); m.name = "benzene".into(); m });
     v.push(alkane(2)); v.push(alkane(4));
     v
@@ -170,7 +180,10 @@ pub fn random_mol(rng: &mut Rng) -> Mol {
             let zc = *rng.pick(&[5usize, 6, 7, 8, 13, 14, 15, 16, 33, 34, 51, 83, 26, 28, 29, 46, 78, 79, 22, 40, 57, 92]);
             centre(zc, *rng.pick(&[1usize, 9, 17]), *rng.pick(&GEOMETRIES), rng.range(0.9, 1.1))
         }
-        4 => alkane(1 + rng.below(5)),
+        4 => if rng.chance(0.5) { alkane(1 + rng.below(5)) } else {
+            // a period-2 centre with three heavy neighbours from groups 14-16 (bond-order refinement is exercised)
+            centre(*rng.pick(&[6usize, 7, 5]), *rng.pick(&[6usize, 7, 8, 16]), "trigonal", rng.range(0.85, 1.0))
+        },
         5 => { let n = 3 + rng.below(5); let z = *rng.pick(&[6usize, 7, 14, 5]); ring(n, z, 1.1 * 2.0 * radius(z) * 0.93, if rng.chance(0.7) { 1 } else { 0 }, 1.05) }
         6 => { let n = 2 + rng.below(5); let zs: Vec<usize> = (0..n).map(|_| *rng.pick(&[1usize, 6, 7, 8, 16, 9, 15])).collect(); linear_chain(&zs, rng.range(0.85, 1.1)) }
         _ => {
